@@ -510,7 +510,10 @@ def resolve(m, h):
     return h
 
 
-def gen_args(rng, m, pkg, tag, allow_nil_struct_on_query=False):
+BRACE_VALUES = ["{x}", "a{b", "{id}", "{name}", "{uid}}", "x{"]
+
+
+def gen_args(rng, m, pkg, tag, allow_nil_struct_on_query=False, force_nil_struct=False, brace_path=False):
     """{param name: value}; values: ('str',s) ('int',z) ('bool',b) ('ptr', v|None, gotype) ('struct', {...}|None, ptr)
     ('map', [(k, v)]|None) ('ctx', tag, cancelled)"""
     hole_params = {resolve(m, h) for t, h in m["toks"] if t == "hole"}
@@ -524,10 +527,12 @@ def gen_args(rng, m, pkg, tag, allow_nil_struct_on_query=False):
                 args[p["name"]] = ("ptr", None if rng.random() < 0.3 else gen_scalar(rng, p["gotype"], False), p["gotype"])
             else:
                 args[p["name"]] = gen_scalar(rng, p["gotype"], p["name"] in hole_params)
+                if brace_path and p["name"] in hole_params and p["gotype"] in ("string", "Status") and rng.random() < 0.7:
+                    args[p["name"]] = ("str", rng.choice(BRACE_VALUES))
         elif k == "struct":
             st = struct_of(pkg, p)
             nil_ok = p["ptr"] and (m["verb"] in BODY_VERBS or allow_nil_struct_on_query)
-            if nil_ok and rng.random() < 0.2:
+            if nil_ok and (force_nil_struct or rng.random() < 0.2):
                 args[p["name"]] = ("struct", None, True)
             else:
                 fv = {}
